@@ -176,6 +176,7 @@ def run_case(case):
                      'l_ret': 'method_return_object'}.get(st)
 
     def reg(mgr, lvl, events):
+        made = []
         for e in events:
             a = tr.listener(lvl, e, 'A')
             b = tr.listener(lvl, e, 'B')
@@ -183,14 +184,31 @@ def run_case(case):
             mgr.add_listener(e, b)
             if case['dup']:
                 mgr.add_listener(e, a)      # registered twice: runs once
+            made.append((e, a, b))
+        return made
+
+    svc_listeners = []
 
     def on_service(svc):
         # before SubSvc is created: it must inherit these
-        reg(svc.event_manager, 'service', EVENTS)
+        svc_listeners.extend(reg(svc.event_manager, 'service', EVENTS))
+        if case['dup']:
+            # the same listeners reach the subclass through a second base
+            # too (diamond): still once each, in registration order
+            from spyne import Service
+            mixin = type('MixinSvc', (Service,), {})
+            for e, a, b in svc_listeners:
+                mixin.event_manager.add_listener(e, a)
+                mixin.event_manager.add_listener(e, b)
+            return [mixin]
 
     uni = Universe(Streams(case['useed'])['universe'], on_service=on_service,
                                                                     ctl=ctl)
     reg(uni.method_evmgr, 'method', EVENTS)
+    if case['dup'] and uni.sub_service is not None:
+        # ... and are registered once more on the subclass that inherited them
+        for e, a, b in svc_listeners:
+            uni.sub_service.event_manager.add_listener(e, a)
     in_prot, out_prot = case['in_prot'], case['out_prot']
     inp = make_protocol(in_prot, case['validator'])
     outp = make_protocol(out_prot)
